@@ -28,8 +28,15 @@ func ParseJSONB(data []byte) interface{} {
 	count := int(header & jbCMask)
 	isObj, isArr := header&jbFObject != 0, header&jbFArray != 0
 
-	if (!isObj && !isArr) || count <= 0 || count > 10000 {
+	if (!isObj && !isArr) || count > 10000 {
 		return nil
+	}
+	if count == 0 {
+		// {} and []
+		if isObj {
+			return map[string]interface{}{}
+		}
+		return []interface{}{}
 	}
 
 	numEntries := count
